@@ -156,6 +156,52 @@ fn polynomials_scaled(rng: &mut Rng) {
     emit_oracle_only("fit.poly_scaled", &Tok::new(), &Tok::new(), &v);
 }
 
+/// `Series1::best_fit_line` at any scale of the abscissae (a profile sampled at a pitch of 25 nm expressed
+/// in metres, or in kilometres): the line must be the least-squares line — judged by its sum of squares
+/// against a reference solution computed by SVD in the normalised variable u = x / s, and by agreement
+/// with `Polynomial::<2>::least_squares`
+fn lines_scaled(rng: &mut Rng) {
+    use parry3d_f64::na::{DMatrix, DVector};
+    let n = 3 + rng.below(12);
+    let s = 10f64.powf(rng.range(-8.5, 3.0));
+    let us = abscissae(rng, n);
+    let umax = us.iter().fold(0.0f64, |a, b| a.max(b.abs()));
+    let us: Vec<f64> = us.iter().map(|u| u / umax).collect();
+    let xs: Vec<f64> = us.iter().map(|u| s * u).collect();
+    let (m_u, b_u) = (rng.range(-3.0, 3.0), rng.range(-3.0, 3.0));
+    let noise = *rng.pick(&[0.0, 0.0, 1e-6, 0.3]);
+    let ys: Vec<f64> = us.iter().map(|u| m_u * u + b_u + noise * rng.range(-1.0, 1.0)).collect();
+    let mut v = Verdict::new();
+    let Ok(series) = Series1::try_new(xs.clone(), ys.clone()) else {
+        emit_oracle_only("fit.line_scaled", &Tok::new(), &Tok::new(), &v);
+        return;
+    };
+    match guarded(|| series.best_fit_line()) {
+        Err(e) => v.require(false, "line.panics", || format!("scale {s:e}: {e}")),
+        Ok(l) => {
+            let a = DMatrix::from_fn(n, 2, |i, j| us[i].powi(j as i32));
+            let b = DVector::from_fn(n, |i, _| ys[i]);
+            let reference = a.clone().svd(true, true).solve(&b, 1e-14).unwrap();
+            // the fitted line in the normalised variable: y = b + (m s) u
+            let (fb, fm) = (l.c[0], l.c[1] * s);
+            let ss = |b0: f64, m0: f64| -> f64 { (0..n).map(|j| (b0 + m0 * us[j] - ys[j]).powi(2)).sum() };
+            let total: f64 = ys.iter().map(|y| y * y).sum();
+            let excess = (ss(fb, fm) - ss(reference[0], reference[1])) / total;
+            v.require(excess <= 1e-10, "line.series_best_fit_has_the_smallest_sum_of_squares",
+                || format!("pitch scale {s:e}, {n} samples: fitted slope {:e} intercept {:e}, least squares slope {:e} intercept {:e} (relative excess {excess:e})", l.c[1], l.c[0], reference[1] / s, reference[0]));
+            if noise == 0.0 {
+                v.require((fm - m_u).abs() <= 1e-7 * (1.0 + m_u.abs()) && (fb - b_u).abs() <= 1e-7 * (1.0 + b_u.abs()), "line.series_best_fit_recovers_exact_line",
+                    || format!("pitch scale {s:e}: slope {:e} (true {:e}), intercept {:e} (true {:e})", l.c[1], m_u / s, l.c[0], b_u));
+            }
+            if let Ok(c) = fit_k(2, &xs, &ys, None) {
+                v.require((c[1] * s - fm).abs() <= 1e-7 * (1.0 + fm.abs()) && (c[0] - fb).abs() <= 1e-7 * (1.0 + fb.abs()), "line.series_best_fit_equals_degree_one_at_any_scale",
+                    || format!("pitch scale {s:e}: series {:?} vs polynomial {c:?}", l.c));
+            }
+        }
+    }
+    emit_oracle_only("fit.line_scaled", &Tok::new(), &Tok::new(), &v);
+}
+
 fn circles(rng: &mut Rng) {
     let c = Circle2::new(rng.range(-5.0, 5.0), rng.range(-5.0, 5.0), rng.range(0.5, 5.0));
     let a0 = rng.range(0.0, 2.0 * PI);
@@ -235,6 +281,9 @@ pub fn run(rng: &mut Rng, n: usize) {
         }
         for _ in 0..2 {
             polynomials_scaled(rng);
+        }
+        for _ in 0..2 {
+            lines_scaled(rng);
         }
         circles(rng);
     }
